@@ -63,6 +63,12 @@ inline constexpr void convert_type_fundamental(T_To& to,
     // Some branches don't use the param
     RLBOX_UNUSED(err_msg);
 
+    // The source may live in sandbox memory and change at any time: read it
+    // exactly once, and check and convert that one value. (Reading it for each
+    // range check and again for the conversion lets a value through that
+    // passed the checks only in part, and is then truncated.)
+    const auto from_val = *static_cast<const volatile T_From*>(&from);
+
     // Compare value ranges via digits rather than sizeof, as bool has the same
     // size as char, but a smaller range
     constexpr auto to_digits = numeric_limits<T_To>::digits;
@@ -73,31 +79,31 @@ inline constexpr void convert_type_fundamental(T_To& to,
       // Eg: int64_t from int32_t, uint64_t from uint32_t
     } else if constexpr (is_unsigned_v<T_To> && is_unsigned_v<T_From>) {
       // Eg: uint32_t from uint64_t
-      dynamic_check(from <= numeric_limits<T_To>::max(), err_msg);
+      dynamic_check(from_val <= numeric_limits<T_To>::max(), err_msg);
     } else if constexpr (is_signed_v<T_To> && is_signed_v<T_From>) {
       // Eg: int32_t from int64_t
-      dynamic_check(from >= numeric_limits<T_To>::min(), err_msg);
-      dynamic_check(from <= numeric_limits<T_To>::max(), err_msg);
+      dynamic_check(from_val >= numeric_limits<T_To>::min(), err_msg);
+      dynamic_check(from_val <= numeric_limits<T_To>::max(), err_msg);
     } else if constexpr (is_unsigned_v<T_To> && is_signed_v<T_From>) {
       if constexpr (to_digits < from_digits) {
         // Eg: uint32_t from int64_t
-        dynamic_check(from >= 0, err_msg);
+        dynamic_check(from_val >= 0, err_msg);
         auto to_max = numeric_limits<T_To>::max();
-        dynamic_check(from <= static_cast<T_From>(to_max), err_msg);
+        dynamic_check(from_val <= static_cast<T_From>(to_max), err_msg);
       } else {
         // Eg: uint32_t from int32_t, uint64_t from int32_t
-        dynamic_check(from >= 0, err_msg);
+        dynamic_check(from_val >= 0, err_msg);
       }
     } else if constexpr (is_signed_v<T_To> && is_unsigned_v<T_From>) {
       if constexpr (to_digits < from_digits) {
         // Eg: int32_t from uint32_t, int32_t from uint64_t
         auto to_max = numeric_limits<T_To>::max();
-        dynamic_check(from <= static_cast<T_From>(to_max), err_msg);
+        dynamic_check(from_val <= static_cast<T_From>(to_max), err_msg);
       } else {
         // Eg: int64_t from uint32_t
       }
     }
-    to = static_cast<T_To>(from);
+    to = static_cast<T_To>(from_val);
   }
   else
   {
